@@ -2,7 +2,7 @@ PROP = dict(
     model_args=[],
     cases_per_shard=8,
     trivial=lambda inp, out: inp.strip().endswith('-'),
-    rule='legal move sequences: random playouts (slide- and stack-heavy policies), axis games that stay symmetric for many plies and then '
+    rule='CALL HISTORIES (120 per quick run): a priming Canonical call on a related input (same line or prefix on another board size, an image, the canonical form) immediately before the judged call; legal move sequences: random playouts (slide- and stack-heavy policies), axis games that stay symmetric for many plies and then '
          'leave the axis with a slide, small-board slide-heavy games (positions symmetric from above with different captives), symmetric images '
          'of games, games with an illegal continuation (outcome only), and ALL games of <= 2 plies (3 thorough) on 3x3 and 4x4. The oracle '
          'checks legality, same length, prefix-image, equal canonical form of all eight images, idempotence. non-trivial = non-empty game',
